@@ -239,9 +239,12 @@ class Reach:
         self.evr = evaluator
         self.edges = {}
         self.unknown_switches = []
+        self.decided_by_flow = {}
+        self._rel = {}
         for bb in self.it.rpo:
             self.edges[bb] = self._succ(bb)
         self.reachable = self._reach(0, set())
+        self._refine_const_locals()
 
     def _succ(self, bb):
         sw = self.it.switches.get(bb)
@@ -251,6 +254,9 @@ class Reach:
         if v is None or isinstance(v, tuple):
             self.unknown_switches.append(bb)
             return list(self.it.succs[bb])
+        return self._take(bb, sw, v)
+
+    def _take(self, bb, sw, v):
         if isinstance(v, bool):
             v = int(v)
         for val, tb in sw.targets:
@@ -258,7 +264,250 @@ class Reach:
                 return [tb] if not self.body.blocks[tb]['cleanup'] else []
         return [sw.otherwise]
 
-    def _reach(self, start, removed):
+    # ---- path-sensitive refinement for locals that only ever hold constants on the surviving paths
+    # (`let seen = matches!(..)`, `a || b`, drop flags): under the assumption some definitions become
+    # unreachable, and the switch on the local is decided by the constants that still reach it.
+    def _local_defs(self, local):
+        out = {}
+        for bb in self.it.rpo:
+            last = None
+            for s in self.body.blocks[bb]['stmts']:
+                if s['k'] == 'assign' and s['place']['local'] == local:
+                    if s['place']['proj']:
+                        last = ('x', bb)
+                        continue
+                    rv = s['rv']
+                    if rv['k'] == 'use' and rv['op']['k'] == 'const' and rv['op'].get('val') is not None:
+                        last = ('c', rv['op']['val'])
+                    elif rv['k'] == 'use' and rv['op']['k'] in ('copy', 'move') and not rv['op']['place']['proj']:
+                        last = ('copy', rv['op']['place']['local'], bb)
+                    elif rv['k'] == 'unop' and rv['op'] == 'Not' and rv['op1']['k'] in ('copy', 'move') and not rv['op1']['place']['proj']:
+                        last = ('not', rv['op1']['place']['local'], bb)
+                    elif rv['k'] == 'discr' and not rv['place']['proj']:
+                        last = ('discr', rv['place']['local'], bb)
+                    elif rv['k'] == 'agg' and rv.get('agg') == 'adt' and rv.get('is_enum') and 'vidx' in rv:
+                        last = ('variant', rv['vidx'])
+                    else:
+                        last = ('x', bb)
+            t = self.body.blocks[bb]['term']
+            if t['k'] == 'call' and t['dest']['local'] == local:
+                # the value of a call: decided if the evaluator can evaluate the call term
+                c = self.it.calls.get(bb)
+                v = self.evr.ev(c.term) if c is not None else None
+                if isinstance(v, bool):
+                    last_call = ('c', int(v))
+                elif isinstance(v, int):
+                    last_call = ('c', v)
+                else:
+                    last_call = ('x', bb)
+                out[(bb, 'term')] = last_call
+            if last is not None:
+                out[(bb, 'stmts')] = last
+        return out
+
+    def _flow(self, local, region=None, start=None, edges=None):
+        """Reaching definitions of `local` (IN, OUT per block) over the pruned CFG, optionally restricted to the blocks
+        reachable from `start` (then IN[start] is taken from the unrestricted analysis)."""
+        defs = self._local_defs(local)
+        edges = edges or self.edges
+        blocks = region if region is not None else self.reachable
+        preds = {}
+        for x in blocks:
+            for y in edges.get(x, []):
+                if y in blocks:
+                    preds.setdefault(y, []).append(x)
+        IN = {b: set() for b in blocks}
+        OUT = {b: set() for b in blocks}
+        seed = None
+        if region is not None and start is not None:
+            gIN, _ = self._flow(local)
+            seed = set(gIN.get(start, set()))
+        changed = True
+        guard = 0
+        while changed and guard < 200:
+            guard += 1
+            changed = False
+            for b in self.it.rpo:
+                if b not in blocks:
+                    continue
+                if region is None:
+                    inn = {('undef',)} if b == 0 else set()
+                else:
+                    inn = set(seed) if b == start else set()
+                for p_ in preds.get(b, []):
+                    inn |= OUT[p_]
+                d = defs.get((b, 'stmts'))
+                after_stmts = {d} if d is not None else inn
+                dt = defs.get((b, 'term'))
+                out = {dt} if dt is not None else after_stmts
+                if inn != IN[b] or out != OUT[b]:
+                    IN[b], OUT[b] = inn, out
+                    changed = True
+        return IN, OUT
+
+    def _values_at(self, local, at_bb, depth=0, region=None, start=None, edges=None):
+        """Set of possible constant values of `local` at the end of block at_bb's statements over the pruned CFG
+        (None in the set = unknown)."""
+        if depth > 4:
+            return {None}
+        defs = self._local_defs(local)
+        if not defs:
+            return {None}
+        IN, OUT = self._flow(local, region, start, edges)
+        d = defs.get((at_bb, 'stmts'))
+        cur = {d} if d is not None else IN.get(at_bb, set())
+        vals = set()
+        for x in cur:
+            if x[0] == 'c':
+                vals.add(x[1])
+            elif x[0] == 'variant':
+                vals.add(('variant', x[1]))
+            elif x[0] == 'discr':
+                inner = self._values_at(x[1], x[2], depth + 1, region, start, edges)
+                for v in inner:
+                    vals.add(v[1] if isinstance(v, tuple) and v[0] == 'variant' else None)
+            elif x[0] in ('copy', 'not'):
+                inner = self._values_at(x[1], x[2], depth + 1, region, start, edges)
+                for v in inner:
+                    if v is None or isinstance(v, tuple):
+                        vals.add(v if (x[0] == 'copy' and v is not None) else None)
+                    else:
+                        vals.add(v if x[0] == 'copy' else int(not v))
+            else:
+                vals.add(None)
+        return vals or {None}
+
+    def rel_edges(self, start, stops=()):
+        """Edges refined for paths that begin at `start` (per-iteration questions): a switch on a constant-holding local
+        is decided by the definitions that reach it along paths from `start` only."""
+        if start == 0:
+            return self.edges
+        key = (start, tuple(sorted(stops)))
+        if key in self._rel:
+            return self._rel[key]
+        edges = dict(self.edges)
+        for _round in range(6):
+            region = self._reach(start, set(stops) - {start}, edges)
+            progress = False
+            for bb in self.unknown_switches:
+                if bb not in region or bb in self.decided_by_flow:
+                    continue
+                t = self.body.blocks[bb]['term']
+                d = t.get('discr')
+                if not d or d['k'] not in ('copy', 'move') or d['place']['proj']:
+                    continue
+                cur = edges.get(bb)
+                if cur is not None and len(cur) <= 1:
+                    continue
+                vals = self._values_at(d['place']['local'], bb, 0, region, start, edges)
+                if len(vals) == 1 and None not in vals and not isinstance(next(iter(vals)), tuple):
+                    edges[bb] = self._take(bb, self.it.switches[bb], next(iter(vals)))
+                    progress = True
+            if not progress:
+                break
+        self._rel[key] = edges
+        return edges
+
+    def reaching_terms(self, local, at_bb, depth=0):
+        """Value terms of the definitions of `local` that reach the end of the statements of block at_bb on the paths
+        that survive the assumption (path-sensitive provenance).  Copies/moves of plain locals are followed."""
+        if depth > 6:
+            return {('top',)}
+        defs = {}
+        for (bb, si), (l, val, rv) in self.it.assign_vals.items():
+            if l == local:
+                defs.setdefault(bb, []).append((si, val, rv))
+        preds = {}
+        for x in self.reachable:
+            for y in self.edges.get(x, []):
+                preds.setdefault(y, []).append(x)
+
+        def last_in(bb):
+            ds = defs.get(bb)
+            if not ds:
+                return None
+            dd = [d for d in ds if d[0] == 'dest']
+            if dd:
+                return (bb, 'dest')
+            return (bb, max(d[0] for d in ds))
+
+        def last_stmt_in(bb):
+            ds = [d[0] for d in defs.get(bb, []) if d[0] != 'dest']
+            return (bb, max(ds)) if ds else None
+        IN = {b: set() for b in self.reachable}
+        OUT = {b: set() for b in self.reachable}
+        changed = True
+        guard = 0
+        while changed and guard < 200:
+            guard += 1
+            changed = False
+            for b in self.it.rpo:
+                if b not in self.reachable:
+                    continue
+                inn = {('entry',)} if b == 0 else set()
+                for p_ in preds.get(b, []):
+                    inn |= OUT[p_]
+                l = last_in(b)
+                out = {l} if l is not None else inn
+                if inn != IN[b] or out != OUT[b]:
+                    IN[b], OUT[b] = inn, out
+                    changed = True
+        l = last_stmt_in(at_bb)
+        cur = {l} if l is not None else IN.get(at_bb, set())
+        terms = set()
+        for d in cur:
+            if d == ('entry',):
+                if 1 <= local <= self.body.arg_count:
+                    terms.add(('param', local))
+                continue
+            bb, si = d
+            _l, val, rv = self.it.assign_vals[(bb, si)]
+            if rv is not None and rv['k'] == 'use' and rv['op']['k'] in ('copy', 'move') and not rv['op']['place']['proj']:
+                terms |= self.reaching_terms(rv['op']['place']['local'], bb, depth + 1)
+            elif rv is not None and rv['k'] == 'use' and rv['op']['k'] in ('copy', 'move') and \
+                    all(e['k'] in ('field', 'downcast') and e.get('owner') != 'closure' for e in rv['op']['place']['proj']):
+                # a projection of a local (tuple / struct destructuring): project every reaching value of the base
+                from .interp import proj as _proj
+                base = self.reaching_terms(rv['op']['place']['local'], bb, depth + 1)
+                for bt in base:
+                    cur = bt
+                    ok = True
+                    for e in rv['op']['place']['proj']:
+                        if e['k'] == 'downcast':
+                            continue
+                        n = self.it.elem_name(e)
+                        if isinstance(n, tuple):
+                            ok = False
+                            break
+                        cur = _proj(cur, n)
+                    terms.add(cur if ok else val)
+            else:
+                terms.add(val)
+        return terms
+
+    def _refine_const_locals(self):
+        for _round in range(6):
+            progress = False
+            for bb in list(self.unknown_switches):
+                if bb not in self.reachable or bb in self.decided_by_flow:
+                    continue
+                t = self.body.blocks[bb]['term']
+                d = t.get('discr')
+                if not d or d['k'] not in ('copy', 'move') or d['place']['proj']:
+                    continue
+                vals = self._values_at(d['place']['local'], bb)
+                if len(vals) == 1 and None not in vals and not isinstance(next(iter(vals)), tuple):
+                    v = next(iter(vals))
+                    sw = self.it.switches[bb]
+                    self.edges[bb] = self._take(bb, sw, v)
+                    self.decided_by_flow[bb] = v
+                    progress = True
+            if not progress:
+                break
+            self.reachable = self._reach(0, set())
+
+    def _reach(self, start, removed, edges=None):
+        edges = edges if edges is not None else (self.rel_edges(start, tuple(removed)) if (start != 0 and hasattr(self, '_rel') and self.unknown_switches) else self.edges)
         seen = set()
         if start in removed:
             return seen
@@ -268,7 +517,7 @@ class Reach:
             if x in seen or x in removed:
                 continue
             seen.add(x)
-            for y in self.edges.get(x, []):
+            for y in edges.get(x, []):
                 if y not in seen and y not in removed:
                     stack.append(y)
         return seen
@@ -281,12 +530,13 @@ class Reach:
         sites = set(sites)
         if start in sites:
             return True
-        seen = self._reach(start, sites)
+        edges = self.rel_edges(start, tuple(stops)) if start != 0 else self.edges
+        seen = self._reach(start, sites, edges)
         for r in self.return_blocks():
             if r in seen:
                 return False
         for x in seen:
-            for y in self.edges.get(x, []):
+            for y in edges.get(x, []):
                 if y in stops and y not in sites:
                     return False
         return True
